@@ -25,6 +25,11 @@ enum Pair {
   DealerDealer,
   /// ROUTER -> ROUTER: no delimiter is added or removed on either side, every payload frame is payload
   RouterRouter,
+  /// a multipart request read by a REP application (sent by a DEALER: rzmq's REQ refuses
+  /// send_multipart by design - "use DEALER for general multipart messaging")
+  DealerRep,
+  /// a REP's multipart reply read by a REQ application
+  RepReq,
 }
 
 #[derive(Clone, Copy, Debug, PartialEq, Eq)]
@@ -128,8 +133,10 @@ fn run_shape(sh: &Shape) -> world::WorldResult<ShapeOut> {
       Pair::PubSub => (SocketType::Pub, SocketType::Sub),
       Pair::DealerDealer => (SocketType::Dealer, SocketType::Dealer),
       Pair::RouterRouter => (SocketType::Router, SocketType::Router),
+      Pair::DealerRep => (SocketType::Dealer, SocketType::Rep),
+      Pair::RepReq => (SocketType::Rep, SocketType::Req),
     };
-    let a = stack::mk(&ctx, ta, &[(o::SNDTIMEO, 500), (o::LINGER, 0), (o::SNDHWM, 1000)]).await;
+    let a = stack::mk(&ctx, ta, &[(o::SNDTIMEO, 500), (o::RCVTIMEO, 100), (o::LINGER, 0), (o::SNDHWM, 1000)]).await;
     let b = stack::mk(&ctx, tb, &[(o::RCVTIMEO, 100), (o::LINGER, 0), (o::RCVHWM, 1000)]).await;
     let mut prefix: Option<Vec<u8>> = None;
     if sh.pair == Pair::RouterDealer {
@@ -165,6 +172,45 @@ fn run_shape(sh: &Shape) -> world::WorldResult<ShapeOut> {
       msgs.insert(0, id);
     }
     let mut out = ShapeOut { send_result: Ok(()), sentinel_result: Ok(()), flat: vec![] };
+    if sh.pair == Pair::DealerRep {
+      // the REP application must answer before it may receive again: two receive rounds
+      out.send_result = a.send_multipart(std::mem::take(&mut msgs)).await.map_err(|e| e.to_string());
+      out.sentinel_result = a.send(Msg::from_vec(b"sentinel".to_vec())).await.map_err(|e| e.to_string());
+      settle_n(3).await;
+      for _ in 0..2 {
+        out.flat.extend(receive_flat(&b, &sh.rx, 700).await);
+        let _ = b.send(Msg::from_vec(b"answer".to_vec())).await;
+        settle_n(3).await;
+      }
+      let _ = tokio::time::timeout(std::time::Duration::from_secs(30), ctx.term()).await;
+      return out;
+    }
+    if sh.pair == Pair::RepReq {
+      // the REQ (b) asks, the REP (a) answers with the message under test; second round: the sentinel
+      for round in 0..2 {
+        let payload_msgs = if round == 0 { std::mem::take(&mut msgs) } else { vec![Msg::from_vec(b"sentinel".to_vec())] };
+        let _ = b.send(Msg::from_vec(b"question".to_vec())).await;
+        settle_n(3).await;
+        let _ = a.recv_multipart().await;
+        let r = a.send_multipart(payload_msgs).await.map_err(|e| e.to_string());
+        let sent_ok = r.is_ok();
+        if round == 0 {
+          out.send_result = r;
+        } else {
+          out.sentinel_result = r;
+        }
+        if !sent_ok {
+          // a refused reply leaves the request open: answer it plainly, so that the REQ's round ends
+          // (the plain answer is taken out of the observation below)
+          let _ = a.send(Msg::from_vec(b"plain".to_vec())).await;
+        }
+        settle_n(3).await;
+        let got = receive_flat(&b, &sh.rx, 700).await;
+        out.flat.extend(got.into_iter().filter(|(d, more)| !(d == b"plain" && !*more)));
+      }
+      let _ = tokio::time::timeout(std::time::Duration::from_secs(30), ctx.term()).await;
+      return out;
+    }
     out.send_result = a.send_multipart(msgs).await.map_err(|e| e.to_string());
     // sentinel: a later single-frame message must still arrive, after the one under test
     let mut sent = vec![Msg::from_vec(b"sentinel".to_vec())];
@@ -227,7 +273,7 @@ fn judge_shape(sh: &Shape, out: &ShapeOut) -> Vec<(String, String, String)> {
         v.push(("supported-shape-refused".into(), class.clone(), format!("send_multipart of {} frames failed: {}", sh.frames.len(), e)));
       }
       if !msgs.is_empty() && msgs[0] != sentinel {
-        v.push(("refused-message-partially-delivered".into(), class.clone(), format!("{} messages arrived, first has {} frames", msgs.len(), msgs[0].len())));
+        v.push(("refused-message-partially-delivered".into(), class.clone(), format!("{} messages arrived, first has {} frames (first frame {:?}); the send failed with: {}", msgs.len(), msgs[0].len(), String::from_utf8_lossy(&msgs[0][0][..msgs[0][0].len().min(16)]), e)));
       }
     }
   }
@@ -273,9 +319,9 @@ fn shapes(tier: Tier) -> Vec<Shape> {
     v
   };
   let mut out = vec![];
-  for pair in [Pair::PushPull, Pair::DealerRouter, Pair::RouterDealer, Pair::PubSub, Pair::DealerDealer, Pair::RouterRouter] {
+  for pair in [Pair::PushPull, Pair::DealerRouter, Pair::RouterDealer, Pair::PubSub, Pair::DealerDealer, Pair::RouterRouter, Pair::DealerRep, Pair::RepReq] {
     for tr in [Tr::Zmtp, Tr::Inproc] {
-      if (pair == Pair::DealerDealer || pair == Pair::RouterRouter) && tr == Tr::Inproc {
+      if (pair == Pair::DealerDealer || pair == Pair::RouterRouter || pair == Pair::DealerRep) && tr == Tr::Inproc {
         continue; // inproc refuses DEALER-DEALER (C05 known finding)
       }
       for f in &frames_list {
